@@ -154,7 +154,13 @@ static void scenario_addcrystal(int fd) {
     char name[40]; snprintf(name, sizeof name, "XvCpp%04d", k);
     xrlpp::Crystal::Struct c(name, base.a + 0.001 * k, base.b, base.c, base.alpha, base.beta, base.gamma, 0.0, base.atom);
     int before = 0, after = 0; char **l = Crystal_GetCrystalsList(NULL, &before, NULL); if (l) { for (int j = 0; l[j]; j++) xrlFree(l[j]); xrlFree(l); }
-    Out w = guarded([&](Out &o) { o.v[0] = xrlpp::Crystal::AddCrystal(c); });
+    /* additions alternate between the free function and the member; the wrapper's own list must track C's list either way */
+    Out w = guarded([&](Out &o) { o.v[0] = (k % 4 >= 2) ? xrlpp::Crystal::AddCrystal(c) : c.AddCrystal(); });   /* member, member, free, free, ... */
+    if (k < 12 || k % 16 < 4 || before >= CRYSTALARRAY_MAX - 2) {
+      std::string cl, wl; int nc = 0; char **ll = Crystal_GetCrystalsList(NULL, &nc, NULL); if (ll) { for (int j = 0; ll[j]; j++) { cl += ll[j]; cl += '|'; xrlFree(ll[j]); } xrlFree(ll); }
+      Out lw = guarded([&](Out &o) { std::vector<std::string> v = xrlpp::Crystal::GetCrystalsList(); o.aux = (int)v.size(); for (auto &x : v) { o.what += x; o.what += '|'; } });
+      if (lw.kind != 0 || lw.what != cl) say("c18:Crystal::GetCrystalsList:differs-from-C-after-additions", "after " + std::to_string(k + 1) + " additions the wrapper lists " + std::to_string(lw.aux) + " crystals, C lists " + std::to_string(nc));
+    }
     l = Crystal_GetCrystalsList(NULL, &after, NULL); if (l) { for (int j = 0; l[j]; j++) xrlFree(l[j]); xrlFree(l); }
     bool full = before >= CRYSTALARRAY_MAX;
     if (!full) {
